@@ -10,6 +10,7 @@
 (*       n: rows that reached the minimiser; tq: fitted tau in the window [0, 1000] days; mq, cprev_q: fitted *)
 (*       M and the second-to-last cumulative production in [0, inplace_max]; pq, pfmax_q: fitted initial      *)
 (*       pressure and the highest frac-face pressure passed to the objective in [0, pressure_imax];          *)
+(*       plo_q: the declared lower limit of the initial pressure in the same window;                        *)
 (*       w1_e15: largest relative change of a pressure between the table rows that get through and what the  *)
 (*       objective receives, when no smoothing or a window of one sample was requested (-1 otherwise)        *)
 (*       n_exp, cexp_q, pexp_q: rows / second-to-last cumulative production / highest pressure of the rows   *)
@@ -21,7 +22,9 @@ EXTENDS FitPressure, TraceLib, Quant
 VARIABLES l
 
 ObjTolE15 == 1000        \* 1e-12 relative: the objective *is* the library's model
-W1TolE15  == 1000        \* 1e-12 relative: a window of one sample changes nothing beyond rounding
+W1TolE15  == 0           \* a window of one sample (or none) leaves every pressure bit for bit as the table holds it (defect D17:
+                         \* the boxcar filter of width one moved last bits, and an exact 0 psi reading below the table's range)
+ExclTolE15 == 1000       \* 1e-12 relative
 
 \* position of the integer L (days) in the window [0, 1000]: S * (1 + L / 1000)
 QDays(L) == <<100000 * (1000 + L), 0>>
@@ -41,8 +44,11 @@ StepFitResult(e) ==
                   ELSE (IF QLe(QDays(T.min), e.tq) /\ QLe(e.tq, QDays(T.max)) THEN {} ELSE {"TauLimits"})
                        \cup (IF QLe(e.cprev_q, e.mq) /\ QLe(e.mq, Q2S) THEN {} ELSE {"MLimits"})
                        \cup (IF QLe(e.pfmax_q, e.pq) /\ QLe(e.pq, Q2S) THEN {} ELSE {"PLimits"})
+                       \* the declared lower limit itself: the highest frac-face pressure of the history that is simulated
+                       \* (after smoothing, if any) - otherwise "within its limits" would not imply "at least the highest pressure"
+                       \cup (IF QLe(e.pfmax_q, e.plo_q) THEN {} ELSE {"PLimitDeclared"})
                        \cup (IF e.w1_e15 > W1TolE15 THEN {"Window1Identity"} ELSE {})
-                       \cup (IF e.excl_e15 > W1TolE15 THEN {"ExcludedRowsIgnored"} ELSE {}))
+                       \cup (IF e.excl_e15 > ExclTolE15 THEN {"ExcludedRowsIgnored"} ELSE {}))
 
 TInit == c = [none |-> TRUE] /\ l = 1
 TNext == /\ l <= Len(Trace)
